@@ -19,7 +19,7 @@ RULE = ('random units: seeded rule sets (2..9 rules, shared/splitting prefixes, 
         'rule matches under S1; distinct = distinct (rule-set text, path, method).')
 REQUIRED = ['selected', 'not_found', 'multi_candidate', 'needed_backtracking', 'strict_cases', 'weak_cases',
             'converted_int', 'cr_in_path', 'same_pattern_other_method', 'wsgi_calls', 'kwargs_compared',
-            'flavour_colon', 'flavour_angle', 'flavour_brace', 'method_405']
+            'flavour_colon', 'flavour_angle', 'flavour_brace', 'method_405', 'domain_map_requests', 'domain_map_leading_empty_segments']
 EXHAUSTIVE = {'quick': False, 'thorough': False,
               'thorough_note': 'the exh units enumerate completely: rule sets of size<=3 from the 14-rule universe x all paths of length<=6 over {a,b,/,1,CR}'}
 ASSUMPTIONS = ['paths are normalised as documented: leading/trailing separators are ignored (RadiRouter.resolve)',
@@ -47,8 +47,8 @@ UNIVERSE = [
 
 def plan(tier, seed):
     if tier == 'quick':
-        return [{'kind': 'random', 'sets': 100, 'paths': 70, 'sub': i} for i in range(16)]
-    units = [{'kind': 'random', 'sets': 300, 'paths': 80, 'sub': i} for i in range(48)]
+        return [{'kind': 'random', 'sets': 100, 'paths': 70, 'sub': i} for i in range(16)] + [{'kind': 'domain', 'sets': 60, 'paths': 40, 'sub': i} for i in range(2)]
+    units = [{'kind': 'random', 'sets': 300, 'paths': 80, 'sub': i} for i in range(48)] + [{'kind': 'domain', 'sets': 300, 'paths': 60, 'sub': i} for i in range(8)]
     combos = [c for k in (1, 2, 3) for c in itertools.combinations(range(len(UNIVERSE)), k)]
     nsh = 48
     for i in range(nsh):
@@ -381,9 +381,93 @@ def exh_unit(ctx, unit):
                 'example_set': [R.render(rng, UNIVERSE[i], flavour=i) for i in unit['combos'][0]] if unit['combos'] else None})
 
 
+def domain_unit(ctx, unit):
+    """The same monitor behind a host -> application-name mapping (config domain_map / app_name_header): the path the
+    router sees is '/' + name + PATH_INFO, nothing else; paths with empty leading segments are the interesting ones."""
+    import ombott
+    rng = ctx.rng
+    for si in range(unit['sets']):
+        name = rng.choice(['shop', 'a', 'ab'])
+        asts = []
+        for _ in range(rng.randint(2, 6)):
+            ast = R.gen_rule(rng, filters=rng.random() < 0.5, max_segs=3)
+            if rng.random() < 0.7:
+                ast = R.normalise([['lit', name + '/']] + ast) if rng.random() < 0.8 else R.normalise([['lit', name]] + ast)
+            asts.append(ast)
+        app = ombott.Ombott({'domain_map': (lambda host, _n=name: _n if host and host.startswith('mapped') else None), 'app_name_header': 'HTTP_X_APP_NAME'})
+        calls = []
+        accepted = []
+        for idx, ast in enumerate(asts):
+            text = R.render(rng, ast)
+            if text.startswith('//'):
+                continue
+
+            def handler(_idx=idx, **kw):
+                calls.append((_idx, kw))
+                return 'ok'
+            try:
+                app.route(text, 'GET', handler)
+                accepted.append((idx, ast, text))
+            except Exception:  # noqa  refused rules are not part of the rule set
+                app = None
+                break
+        if app is None or not accepted:
+            continue
+        casts = {idx: R.compile_ast(ast) for idx, ast, _ in accepted}
+        atoms = {idx: R.atoms(ast) for idx, ast, _ in accepted}
+        paths = R.gen_paths(rng, [ast for _, ast, _ in accepted], unit['paths'])
+        for p in paths:
+            # PATH_INFO as the client sends it: the generated path minus the application name, with 0..3 leading separators
+            tail = p[len(name):] if p.startswith(name) and rng.random() < 0.7 else p
+            path_info = '/' * rng.choice([0, 1, 1, 1, 2, 3]) + tail.lstrip('/') if rng.random() < 0.5 else '/' + tail
+            if not path_info.startswith('/'):
+                path_info = '/' + path_info
+            seen = '/' + name + path_info              # what the router is documented to see
+            s_ = seen.strip('/')
+            m1 = {i: R.match(c, s_, True) for i, c in casts.items()}
+            m1 = {i: kw for i, kw in m1.items() if kw is not None}
+            m2 = {i for i, c in casts.items() if R.match(c, s_, False) is not None}
+            del calls[:]
+            r = call_app(app, make_environ('GET', path_info, headers={'Host': 'mapped.example'}))
+            ctx.count('domain_map_requests')
+            ctx.count('wsgi_calls')
+            if path_info.startswith('//'):
+                ctx.count('domain_map_leading_empty_segments')
+            ctx.case(('domain', tuple(t for _, _, t in accepted), path_info), nontrivial=bool(m1))
+            wit = {'unit': {'kind': 'note', 'app_name': name, 'rules': [t for _, _, t in accepted], 'path_info': path_info}}
+            if r.escaped is not None or r.code is None or r.code >= 500:
+                ctx.violation('route:domain-map:server-fault', f'app name {name!r} rules {[t for _, _, t in accepted]} PATH_INFO {path_info!r}: {r.status} {r.errors[-200:]}', wit)
+                continue
+            if set(m1) != m2:
+                ctx.count('weak_cases')
+                if r.code == 200 and (len(calls) != 1 or calls[0][0] not in m1 or kwrepr(calls[0][1]) != kwrepr(m1[calls[0][0]])):
+                    ctx.violation('route:domain-map:selection-inconsistent-with-any-reading', f'app name {name!r} PATH_INFO {path_info!r} (router sees {seen!r}): ran {calls}', wit)
+                continue
+            ctx.count('strict_cases')
+            if not m1:
+                if r.code != 404 or calls:
+                    ctx.violation('route:domain-map:handler-called-though-no-rule-matches-the-mapped-path', f'app name {name!r} rules {[t for _, _, t in accepted]} PATH_INFO {path_info!r} '
+                                  f'(router sees {seen!r}): {r.status} ran {calls}', wit)
+                continue
+            win = R.winners([(i, atoms[i]) for i in m1])
+            if r.code != 200 or len(calls) != 1:
+                ctx.violation('route:domain-map:not-found-though-a-rule-matches-the-mapped-path', f'app name {name!r} rules {[t for _, _, t in accepted]} PATH_INFO {path_info!r} '
+                              f'(router sees {seen!r}): {r.status}; matching rules {sorted(m1)}', wit)
+                continue
+            i, kw = calls[0]
+            if i not in win or kwrepr(kw) != kwrepr(m1[i]):
+                ctx.violation('route:domain-map:wrong-rule-or-arguments', f'app name {name!r} PATH_INFO {path_info!r} (router sees {seen!r}): ran rule {i} with {kw}, expected one of {win} with {m1.get(i)}', wit)
+        if si % 40 == 0:
+            ctx.sample({'domain_map': f'host mapped.example -> {name!r}', 'rules': [t for _, _, t in accepted], 'example_path_info': paths[0] if paths else None})
+
+
 def run_unit(ctx, unit):
     k = unit['kind']
-    if k == 'random':
+    if k == 'domain':
+        domain_unit(ctx, unit)
+    elif k == 'note':
+        print('  witness:', unit)
+    elif k == 'random':
         random_unit(ctx, unit)
     elif k == 'exh':
         exh_unit(ctx, unit)
